@@ -93,6 +93,40 @@ def ntag_authenticate(sx, product, plen, nak_as):
     return [product, plen, r]
 
 
+def ntag_history(sx, product, calls, nak_as):
+    """several authenticate() calls through ONE tag object; between the calls
+    the key on the tag may be replaced (by another reader, or a raw write of
+    the configuration pages).  Every result must reflect the key the tag
+    holds at the time of that call - nothing remembered from earlier calls
+    may answer in the tag's place."""
+    sim, tag = nxp_tag(sx, product, nak_as)
+    prev = None
+    out = []
+    for i in range(calls):
+        if i > 0 and sx.pick("rekey%d" % i, [1, 0]):
+            new = list(sx.bytes("tag.pwd%d" % i, 4)) + list(sx.bytes("tag.pack%d" % i, 2))
+            sim.pages[sim.cfg + 2] = new[0:4]
+            sim.pages[sim.cfg + 3] = new[4:6] + [0, 0]
+            sx.reach("ntag:key-replaced-between-calls")
+        if prev is not None and sx.pick("again%d" % i, [1, 0]):
+            p = prev
+            sx.reach("ntag:same-password-again")
+        else:
+            p = nxp_password(sx, "p%d" % i, 6)
+        prev = p
+        stored = sx.mkbytes(sim.pwd() + sim.pack(), False)
+        n_before = sim.log.count(("pwd_auth", None))
+        r = tag.authenticate(p)
+        if not is_bool(r):
+            sx.check(False, "ntag:authenticate-returns-non-bool")
+        holds = sx.eq(stored, nxp_key(sx, p))
+        sx.check(sx.implies(r, holds), "ntag:history:authenticate-true-with-other-key:call%d" % i)
+        sx.check(sx.implies(holds, r), "ntag:history:authenticate-false-with-tag-key:call%d" % i)
+        sx.check(sx.eq(tag.is_authenticated, r), "ntag:history:is_authenticated-differs:call%d" % i)
+        out.append(r)
+    return [product, out]
+
+
 def ntag_protect(sx, product, plen, qlen, nak_as, read_protect, protect_from):
     """protect(p) on a tag with arbitrary old PWD/PACK, then authenticate(q)"""
     page3 = sx.bytes("tag.cc", 4)
@@ -775,6 +809,10 @@ def partitions(tier):
                     params=dict(product=prod, plen=plen, qlen=qlen,
                                 nak_as="timeout", read_protect=rp,
                                 protect_from=pf)))
+    for prod in (["NTAG213", "MF0UL21"] if quick else prods):
+        for nak in ("byte", "timeout"):
+            parts.append(dict(name="ntag-history:%s:%s" % (prod, nak), fn="ntag_history",
+                              params=dict(product=prod, calls=2 if quick else 3, nak_as=nak)))
     for prod in (["NTAG213", "MF0UL11"] if quick else prods):
         for plen in (0, 6, 8):
             for tlen in (0, 1, 2, 3):
@@ -870,6 +908,7 @@ def partitions(tier):
 
 
 _REACH = [
+    "ntag:key-replaced-between-calls", "ntag:same-password-again",
     "ntag:authenticated", "ntag:refused", "ntag:short-password-rejected",
     "ntag:protect-short-password-rejected", "ntag:protected",
     "ntag:second-accepted", "ntag:second-refused", "ntag:pack-answer-replaced",
@@ -901,7 +940,7 @@ BOUNDS = {
     "2^48 stored PWD||PACK x all password bytes, NAK surfaced as time-out or "
     "as NAK byte; protect(p) (lengths 0,3,6,8; read_protect x protect_from in "
     "{0,4,300}; arbitrary old PWD/PACK, CC page and CFG1) followed by "
-    "authenticate(q) (lengths 0,6,7), all p,q; PACK answer replaced in transit "
+    "authenticate(q) (lengths 0,6,7), all p,q; histories of 2 (thorough 3) authenticate() calls through one tag object with the tag's key replaced between the calls or not and the same or another password; PACK answer replaced in transit "
     "by 0..3 arbitrary bytes.  FeliCa Lite and Lite-S over the ideal cipher: "
     "authenticate(p) for all 2^128 card keys x all passwords of length "
     "{0,5,16,17,23,24,32} x all challenges x all ID blocks (Lite-S: all write counters); "
